@@ -124,6 +124,12 @@ def run(tier, seed, replay=None):
                 rep.violation(f"[{cfg}] {'an ill-typed' if worst[2] == 'ill-typed' else 'a well-typed ' + worst[2]} program ends abnormally: {worst[3][:200]}", e2e.replay_of(worst[0], cfg, worst[1]), tags={"program:abnormal:" + cfg})
     except vlib.BuildFailure as e:
         rep.violation("the solver does not build in a supported configuration", {"kind": "build", "theorem_or_correspondence": "cmake build of /repo", "log": str(e)}, no_input=True)
+    # corpus programs (hand-checked inputs from bug hunts): must end normally, with the expected verdict
+    try:
+        from . import corpus
+        whole["corpus"] = corpus.run(rep, PROP, tier)
+    except vlib.BuildFailure as e:
+        rep.violation("the solver does not build in a supported configuration", {"kind": "build", "theorem_or_correspondence": "cmake build of /repo", "log": str(e)}, no_input=True)
     # the repository's own example problems (the inputs of its solver tests), in a build with assertions on
     examples = {}
     try:
